@@ -17,6 +17,7 @@ from agilerl.modules.simba import EvolvableSimBa
 from agilerl.networks.actors import DeterministicActor, StochasticActor
 from agilerl.networks.q_networks import ContinuousQNetwork, QNetwork, RainbowQNetwork
 from agilerl.networks.value_networks import ValueNetwork
+from agilerl.wrappers.make_evolvable import MakeEvolvable
 
 VEC = spaces.Box(-1, 1, (3,))
 IMG = spaces.Box(0, 1, (2, 8, 8))
@@ -24,15 +25,15 @@ SEQ = spaces.Box(-1, 1, (4, 3))
 DCT = spaces.Dict({"img": IMG, "vec": VEC})
 TUP = spaces.Tuple((IMG, VEC))
 
-MLPB = dict(min_mlp_nodes=1, max_mlp_nodes=7, min_hidden_layers=1, max_hidden_layers=3)
+MLPB = dict(min_mlp_nodes=1, max_mlp_nodes=8, min_hidden_layers=1, max_hidden_layers=3)
 CNNB = dict(min_channel_size=1, max_channel_size=5, min_hidden_layers=1, max_hidden_layers=3)
-ENC_MLP = dict(hidden_size=[3], **MLPB)
-ENC_CNN = dict(channel_size=[2], kernel_size=[3], stride_size=[1], **CNNB)
+ENC_MLP = dict(hidden_size=[4], **MLPB)
+ENC_CNN = dict(channel_size=[3], kernel_size=[3], stride_size=[1], **CNNB)
 ENC_CNN2 = dict(channel_size=[2, 3], kernel_size=[3, 3], stride_size=[1, 1], **CNNB)
-ENC_LSTM = dict(hidden_size=3, min_hidden_size=1, max_hidden_size=6)
-ENC_SIMBA = dict(hidden_size=4, num_blocks=1, scale_factor=2, min_mlp_nodes=2, max_mlp_nodes=8, min_blocks=1, max_blocks=3)
-HEAD = dict(hidden_size=[3], **MLPB)
-LAT = dict(latent_dim=4, min_latent_dim=1, max_latent_dim=7)
+ENC_LSTM = dict(hidden_size=4, min_hidden_size=1, max_hidden_size=6)
+ENC_SIMBA = dict(hidden_size=4, num_blocks=2, scale_factor=2, min_mlp_nodes=2, max_mlp_nodes=8, min_blocks=1, max_blocks=3)
+HEAD = dict(hidden_size=[4], **MLPB)
+LAT = dict(latent_dim=4, min_latent_dim=1, max_latent_dim=8)
 ENC_MULTI = dict(cnn_config=dict(ENC_CNN), mlp_config=dict(ENC_MLP), vector_space_mlp=True, **LAT)
 
 
@@ -48,22 +49,24 @@ def _xd():
 # name -> (constructor thunk, input thunk). Inputs are integer valued.
 BLOCKS = {
     # ---- modules
-    "mlp": (lambda: EvolvableMLP(3, 2, [3, 4], layer_norm=False, **MLPB), lambda: _x((3,))),
-    "mlp_ln": (lambda: EvolvableMLP(3, 2, [3], layer_norm=True, output_layernorm=True, **MLPB), lambda: _x((3,))),
-    "mlp_noisy": (lambda: EvolvableMLP(3, 2, [3], layer_norm=True, noisy=True, **MLPB), lambda: _x((3,))),
-    "mlp_tanh": (lambda: EvolvableMLP(3, 2, [2, 2, 2], layer_norm=False, activation="Tanh", output_activation="Tanh", output_vanish=False, init_layers=False, **MLPB), lambda: _x((3,))),
-    "cnn": (lambda: EvolvableCNN([2, 8, 8], 3, [2, 3], [3, 3], [1, 1], **CNNB), lambda: _x((2, 8, 8))),
-    "cnn_bn": (lambda: EvolvableCNN([2, 8, 8], 3, [2], [3], [1], layer_norm=True, **CNNB), lambda: _x((2, 8, 8))),
+    "mlp": (lambda: EvolvableMLP(3, 2, [4, 5], layer_norm=False, **MLPB), lambda: _x((3,))),
+    "mlp_ln": (lambda: EvolvableMLP(3, 2, [4], layer_norm=True, output_layernorm=True, **MLPB), lambda: _x((3,))),
+    "mlp_noisy": (lambda: EvolvableMLP(3, 2, [4], layer_norm=True, noisy=True, **MLPB), lambda: _x((3,))),
+    "mlp_tanh": (lambda: EvolvableMLP(3, 2, [3, 2, 3], layer_norm=False, activation="Tanh", output_activation="Tanh", output_vanish=False, init_layers=False, **MLPB), lambda: _x((3,))),
+    "cnn": (lambda: EvolvableCNN([2, 8, 8], 3, [3, 3], [3, 3], [1, 1], **CNNB), lambda: _x((2, 8, 8))),
+    "cnn_bn": (lambda: EvolvableCNN([2, 8, 8], 3, [3], [3], [1], layer_norm=True, **CNNB), lambda: _x((2, 8, 8))),
     "cnn_stride": (lambda: EvolvableCNN([1, 9, 9], 2, [2, 2], [2, 3], [2, 1], **CNNB), lambda: _x((1, 9, 9))),
     "cnn3d": (lambda: EvolvableCNN([1, 2, 7, 7], 2, [2, 2], [3, 3], [1, 1], block_type="Conv3d",
                                    sample_input=torch.zeros(1, 1, 2, 7, 7), **CNNB), lambda: _x((1, 2, 7, 7))),
     "lstm": (lambda: EvolvableLSTM(3, 3, 2, num_layers=1, **{k: v for k, v in ENC_LSTM.items() if k != "hidden_size"}), lambda: _x((4, 3))),
     "lstm2": (lambda: EvolvableLSTM(2, 2, 2, num_layers=2, min_hidden_size=1, max_hidden_size=5), lambda: _x((3, 2))),
     "simba": (lambda: EvolvableSimBa(3, 2, **ENC_SIMBA), lambda: _x((3,))),
-    "resnet": (lambda: EvolvableResNet([2, 6, 6], 2, 2, 3, 1, 1, scale_factor=2, min_channel_size=1, max_channel_size=5, min_blocks=1, max_blocks=3), lambda: _x((2, 6, 6))),
+    "resnet": (lambda: EvolvableResNet([2, 6, 6], 2, 2, 3, 1, 2, scale_factor=2, min_channel_size=1, max_channel_size=5, min_blocks=1, max_blocks=3), lambda: _x((2, 6, 6))),
     "multi_dict": (lambda: EvolvableMultiInput(DCT, 3, **ENC_MULTI), _xd),
     "multi_tuple": (lambda: EvolvableMultiInput(TUP, 3, cnn_config=dict(ENC_CNN), vector_space_mlp=False, **LAT),
                     lambda: (_x((2, 8, 8)), _x((3,)))),
+    "make_evo_mlp": (lambda: MakeEvolvable(torch.nn.Sequential(torch.nn.Linear(3, 4), torch.nn.ReLU(), torch.nn.Linear(4, 3), torch.nn.ReLU(), torch.nn.Linear(3, 2)),
+                                            torch.zeros(1, 3), min_mlp_nodes=1, max_mlp_nodes=7, min_hidden_layers=1, max_hidden_layers=3), lambda: _x((3,))),
     # ---- networks (complete and partial configurations)
     "q_vec": (lambda: QNetwork(VEC, spaces.Discrete(3), encoder_config=dict(ENC_MLP), head_config=dict(HEAD), **LAT), lambda: _x((3,))),
     "q_vec_partial": (lambda: QNetwork(VEC, spaces.Discrete(2), encoder_config={"hidden_size": [3]}, latent_dim=4, min_latent_dim=1, max_latent_dim=40), lambda: _x((3,))),
@@ -86,9 +89,9 @@ QUICK_BLOCKS = list(BLOCKS)
 # values offered for the optional arguments of the mutation methods (None = let the method draw);
 # 100 always hits the HARD LIMIT guard, i.e. the mutation leaves the architecture unchanged
 ARG_CHOICES = {
-    "hidden_layer": [None, 0, 1, 5],
-    "numb_new_nodes": [None, 1, 2, 100],
-    "numb_new_channels": [None, 1, 2, 100],
+    "hidden_layer": [None, 0, 0, 1, 1, 5],
+    "numb_new_nodes": [None, 1, 1, 1, 2, 2, 100],
+    "numb_new_channels": [None, 1, 1, 1, 2, 2, 100],
     "kernel_size": [None],
 }
 
